@@ -555,6 +555,11 @@ def depth1_mutators():
         # skew bases whose columns all have the same length (not conformal)
         ["transform", {"cls": "general_affine", "M": K1.tolist()}],
         ["transform", {"cls": "general_affine", "M": K2.tolist()}],
+        # unit conversions combined with a mirror: |det| far below any absolute epsilon
+        ["transform", {"cls": "mirror", "M": (np.diag([1.5e-3, 1.5e-3, 1.5e-3, 1.0]) @ H).tolist()}],
+        ["scale", -0.001],
+        ["scale", 0.001],
+        ["scale", [0.001, -0.001, 0.001]],
         ["scale", 2.0],
         ["scale", -1.0],
         ["scale", [1.0, 2.0, 3.0]],
